@@ -320,6 +320,15 @@ OUTSIDE_MODEL = {
     "C11k": "call backs made only if the agent accepts the kind of notification (new optional setting): as C11j",
     "C14j": "step hooks dispatched only at times found in a set collected at session start: a conditional trigger is refused; whether the skipped steps have no hook depends on how the set is collected (FC14j uses a live view of the registry, same shape)",
     "C20q": "chart-following flag moved to a class attribute and its sign cached in the constructor: the chart term no longer reads the instance's flag where the rule looks for it; whether the cached sign can go stale is a question about later writers of the flag",
+    "C01q": "non-top removals re-sort the queue with a key function instead of re-heapifying: a queue kept by sort() is refused (whether the key agrees with the comparison of orders, here: where market orders go on the buy side, is a question about the key; FC01q is a correct key of the same shape)",
+    "C02q": "the heap holds key tuples built around the orders, with an arrival number taken from len(queue): entries around orders are refused (FC02q is the same shape without the number)",
+    "C03q": "the queue kept as a sorted list with binary-search insertion while _execution still pops with heapq: mixed maintenance is refused",
+    "C04q": "expiry index migrated to a heap of (time, order) tuples: another representation of the index than the dictionary of lists the rules decide (FC04q is a correct one)",
+    "C10q": "expiry records prepared when the order is booked and kept next to it: records not built during the sweep are refused (FC10q re-reads every field at the sweep, same shape)",
+    "C12q": "fundamental paths moved into numpy arrays behind a `prices` property: the rules follow the stored dictionary of lists only (FC12q is the correct migration)",
+    "C14q": "session start times read from a table that is filled with the previous session's length: a running table is refused (FC14q fills it with the running sum, same shape)",
+    "C16q": "halt start and halt count turned into properties over a list of halt times: computed state is refused (FC16q reads the last element instead of the first, same shape)",
+    "C09q": "duplicate hooks detected through sets keyed by (hook point, time, event id): a duplicate test against another collection than event_hooks is refused (FC09q keys the set by the hook itself)",
 }
 
 # --------------------------------------------------------------------------- seeded patches
